@@ -105,7 +105,7 @@ func (sim) Explain(prop string, st map[string]int64) string {
 	case "C01":
 		probes = []string{"probe.c01w-checked", "probe.c01w-with-leases", "probe.c01w-unconfirmed-credit", "probe.c01w-immature-coinbase", "probe.c01w-account-balances-checked"}
 	case "C15":
-		probes = []string{"probe.repeated-disconnect", "probe.reorg-back-to-known-blocks", "probe.chain-shortened", "probe.ops-during-initial-rescan", "probe.reorg-depth>1", "probe.reorg-with-wallet-tx", "probe.restart-tip-not-on-chain", "probe.stale-disconnect", "probe.reorg-equal-height", "probe.sync-after-backend-failure", "probe.node-moved-while-stopped", "fault.crash-at-commit", "probe.crash-lost-later-commits"}
+		probes = []string{"probe.repeated-disconnect", "probe.reorg-back-to-known-blocks", "probe.chain-shortened", "probe.ops-during-initial-rescan", "probe.reorg-during-start-up-rescan", "probe.reorg-depth>1", "probe.reorg-with-wallet-tx", "probe.restart-tip-not-on-chain", "probe.stale-disconnect", "probe.reorg-equal-height", "probe.sync-after-backend-failure", "probe.node-moved-while-stopped", "fault.crash-at-commit", "probe.crash-lost-later-commits"}
 	}
 	s := "probes: "
 	for _, k := range probes {
@@ -229,6 +229,9 @@ func genC15(r *core.Rand, p *core.Plan) {
 	maxDepth := r.Range(1, 8)
 	if r.Chance(1, 3) {
 		p.Cfg["async_rescan"] = 1
+		if r.Chance(1, 2) {
+			p.Cfg["reorg_during_rescan"] = 1
+		}
 	}
 	if r.Chance(1, 2) {
 		p.Cfg["btcd_rescan"] = 1 // rescans report transactions only; the wallet catches up block hashes itself
@@ -310,7 +313,14 @@ func genC15(r *core.Rand, p *core.Plan) {
 				// rescan is still running
 				p.Ops = append(p.Ops, core.Op{K: "start", A: []int64{1}})
 				for j := 0; j < r.Range(1, 5); j++ {
-					switch r.Intn(4) {
+					k := r.Intn(4)
+					if p.Cfg["reorg_during_rescan"] == 1 && r.Chance(1, 3) {
+						k = 4
+					}
+					switch k {
+					case 4:
+						d := r.Range(1, 3)
+						p.Ops = append(p.Ops, core.Op{K: "reorg", A: []int64{int64(d), int64(d + r.Range(0, 2)), int64(r.Range(0, 100)), int64(r.Uint64() >> 1)}})
 					case 0:
 						p.Ops = append(p.Ops, core.Op{K: "mine", A: []int64{int64(r.Range(1, 2)), 100, int64(r.Range(-1, 3)), 600, int64(r.Uint64() >> 1)}})
 					case 1:
@@ -622,8 +632,18 @@ func (rs *runState) exec(task, step int, op core.Op) {
 			env.Count("probe.node-moved-while-stopped")
 		}
 	case "reorg":
+		duringRescan := false
 		if x.rescanRunning() {
-			return // see rescanRunning
+			if x.p.C("reorg_during_rescan", 0) == 0 || x.prop != "C15" {
+				return // see rescanRunning
+			}
+			// The client's block-notification path is up to date, and the
+			// reorg reaches it at once: BlockDisconnected tip-down, then
+			// the new branch — a valid evolution of the best chain.
+			x.client.Deliver(0)
+			env.Count("probe.reorg-during-start-up-rescan")
+			duringRescan = true
+			defer func() { x.client.Deliver(0) }()
 		}
 		depth, newLen := int(op.Arg(0)), int(op.Arg(1))
 		if depth < 1 {
@@ -657,6 +677,14 @@ func (rs *runState) exec(task, step int, op core.Op) {
 		}
 		// Txs are chosen per block at connect time from the mempool as it is then
 		disc, conn := x.reorgWithFill(depth, blocks, r, int(op.Arg(2)))
+		if duringRescan {
+			if x.discDuringRescan == nil {
+				x.discDuringRescan = map[chainhash.Hash]bool{}
+			}
+			for _, b := range disc {
+				x.discDuringRescan[b.Hash] = true
+			}
+		}
 		if x.running {
 			// remember which transactions a reorg un-confirmed while the
 			// wallet was up, having been confirmed when it was last started
